@@ -62,6 +62,27 @@ CLAIMED = {
          "Structural necessary conditions only: format dispatch bijection; savers read the prepared view and write everything; install order received-synced/build/save/replace/swap/close(old)/cleanup; no closure capturing a Pebble handle is returned by Lookup - the latter is violated today by the lazy range generator (known finding K1, a genuine defect recorded in known_findings.json), any other escaping closure is still a violation.",
          "go/types+go/ssa; dragonboat's lookup/recover exclusion lasts only for the Lookup call"),
 }
+# clauses added in later rounds (appended to the level text)
+EXTRA = {
+ "C01": " Later rounds: every entry and element applied (i), layout obligations of C12 (j), a fresh or fully reset decode target per command (k), only Set/Delete/DeleteRange on the apply batch (l), bytewise comparer (m).",
+ "C02": " Later rounds: predicate gate, full traversal of every operation list (g), only plain write operations (h).",
+ "C03": " Later rounds: every entry applied (f), recover format from the stream header (g), no entry-loop local carried into results or writes (h), fresh decode target (i), plain write operations (j).",
+ "C04": " Later rounds: nothing tears the new DB or its directory down once it is published, not even a deferred clean-up on a late error; the switch of 'current' is one rename and removes nothing.",
+ "C05": " Later rounds: proposals never tagged ahead, leader cache dense (d4), catalogue reconciliation complete (g), recovery image from one snapshot (h).",
+ "C06": " Later rounds: cache prepend/append contiguity, producer event types, in-place buffer writes, compaction events sent with a waiting send.",
+ "C07": " Later rounds: export unbounded over the key space, maintenance RPC pipeline (restore acknowledged only after the load, spool files rewound) (g).",
+ "C08": " Later rounds: stream read fully (e), no teardown after publish, publish protocol removes nothing.",
+ "C10": " Later rounds: follower index never ahead (e), forwarded writes acknowledged only after the local apply (f).",
+ "C11": " Later rounds: every started state machine gets a listener, announced index not ahead (f).",
+ "C12": " Later rounds: buffer reuse (d3), export covers the key space (e), bytewise comparer (f).",
+ "C13": " Later rounds: sibling agreement of the listings (g); the lock rule accepts explicit unlocks after the last access.",
+ "C14": " Later rounds: names stay inside the catalogue's key space for every Set/Delete (g), snapshot replaces the map (h), reconciliation complete (i), one compare-and-set per sequence advance.",
+ "C15": " Later rounds: the store's versions (d), snapshot replaces the map (e), the worker is a holder only on the nil edge of the lease call.",
+ "C16": " Later rounds: read-only classification (g), NotFound mapping checked along every path.",
+ "C17": " Later rounds: secure schemes of resolveURL (g), whole-string token comparison, leaf-certificate identity.",
+ "C18": " Later rounds: pooled wrappers own their codec object, no shared receive-buffer pool under the aliasing codec, restore streams each table from its own reader (f).",
+ "C19": " Later rounds: merge completeness, whole-list feeders, one view object, headers read from the view per response, read-merge-write in one critical section.",
+}
 PENDING_REASON = "rules designed (DESIGN.md section 7), check not built yet"
 checks=[]; na=[]
 for p in props:
@@ -74,7 +95,7 @@ for p in props:
           "evidence_file":"/verif/evidence/%s.json"%i,
           "replay_cmd_template":"cat {path}",
           "engine":"rvet",
-          "level_claimed":{"category":"other","text":text,"design_ref":"DESIGN.md section "+sec},
+          "level_claimed":{"category":"other","text":text+EXTRA.get(i,""),"design_ref":"DESIGN.md section "+sec},
           "level_note":note,"technique":tech})
     else:
         na.append({"property_id":i,"reason":PENDING_REASON})
